@@ -313,6 +313,11 @@ func raceReports(out string) []Violation {
 					}
 					top = false
 				}
+				if strings.HasPrefix(l, "verifsim.") {
+					// the access happened in code the harness runs below the repository's call (a simulated response body
+					// being read, a document being built): the data is the harness's
+					return ""
+				}
 				if strings.HasPrefix(l, modPrefix) && !strings.Contains(l, "/verifhook.") {
 					l = strings.TrimPrefix(l, modPrefix)
 					if i := strings.LastIndex(l, "("); i > 0 {
